@@ -9,6 +9,7 @@ package props
 // stream states, single- and multi-frame.
 
 import (
+	"bytes"
 	"context"
 	"fmt"
 	"math"
@@ -569,6 +570,11 @@ func C08Plan() *vlib.Plan {
 						if j%3 == 0 {
 							c08EncodeOne(res, []string{exprs[j]}, st, j%2 == 0, true, true)
 						}
+						// the raw-text senders, with 1, 2 and 3 expressions per ad
+						if j%2 == 0 {
+							c08RawSenders(res, []string{exprs[j]}, st)
+							c08RawSenders(res, []string{exprs[j], exprs[(j*7+3)%len(exprs)], exprs[(j*11+5)%len(exprs)]}, st)
+						}
 					}
 					res.Sample = map[string]any{"state": st.String(), "exprs": exprs[lo:min(lo+3, hi)]}
 					return res
@@ -577,4 +583,99 @@ func C08Plan() *vlib.Plan {
 		}
 	}
 	return p
+}
+
+// c08RawSenders: the raw-text senders. The same expression lines go out through
+// PutClassAdRaw (strings), PutClassAdRawBytes with separately allocated slices, and
+// PutClassAdRawBytes with the slices cut ADJACENT out of one shared scratch buffer (the use the
+// API documents). Each must leave the caller's bytes alone and the parsing receiver must
+// rebuild every attribute as the full parser reads its text.
+func c08RawSenders(res *vlib.Result, exprs []string, st c09State) {
+	ctx := context.Background()
+	var lines []string
+	want := map[string]*classad.Expr{}
+	for i, e := range exprs {
+		pe, err := classad.ParseExpr(e)
+		if err != nil {
+			res.Skipped++
+			return
+		}
+		n := fmt.Sprintf("Attr%d", i)
+		lines = append(lines, n+" = "+pe.String())
+		r, err := classad.ParseExpr(pe.String())
+		if err != nil {
+			res.Skipped++
+			return
+		}
+		want[n] = r
+	}
+	for _, sender := range []string{"strings", "bytes-separate", "bytes-shared-buffer"} {
+		res.Evals++
+		sb := &netsim.Buf{}
+		m := message.NewMessageForStream(c09Stream(st, sb))
+		var err error
+		var shared, before []byte
+		switch sender {
+		case "strings":
+			err = m.PutClassAdRaw(ctx, lines, "Machine", "Job")
+		case "bytes-separate":
+			var bs [][]byte
+			for _, l := range lines {
+				bs = append(bs, []byte(l))
+			}
+			err = m.PutClassAdRawBytes(ctx, bs, "Machine", "Job")
+		case "bytes-shared-buffer":
+			var bs [][]byte
+			for _, l := range lines {
+				shared = append(shared, l...)
+			}
+			shared = append(shared, "<<scratch space behind the last expression>>"...)
+			before = append([]byte(nil), shared...)
+			off := 0
+			for _, l := range lines {
+				bs = append(bs, shared[off:off+len(l)]) // capacity runs on into the next expression
+				off += len(l)
+			}
+			err = m.PutClassAdRawBytes(ctx, bs, "Machine", "Job")
+		}
+		if err == nil {
+			err = m.PutInt(ctx, 31337)
+		}
+		if err == nil {
+			err = m.FinishMessage(ctx)
+		}
+		key := func(k string) string { return fmt.Sprintf("C08/raw-sender/%s/%s/%v", k, sender, st) }
+		if err != nil {
+			res.Violate(key("put-error"), "lines %q: %v", lines, err)
+			continue
+		}
+		res.Nontrivial++
+		if before != nil && !bytes.Equal(before, shared) {
+			res.Violate(key("caller-buffer-modified"), "lines %q: the sender changed the caller's buffer at offset %d", lines, firstDiff(before, shared))
+		}
+		rm := message.NewMessageFromStream(c09Stream(st, &netsim.Buf{R: sb.W}))
+		got, err := rm.GetClassAd(ctx)
+		if err != nil {
+			res.Violate(key("receiver-error"), "lines %q: %v", lines, err)
+			continue
+		}
+		if s, e2 := rm.GetInt(ctx); e2 != nil || s != 31337 {
+			res.Violate(key("bytes-consumed"), "lines %q: sentinel read %d, %v", lines, s, e2)
+			continue
+		}
+		for n, w := range want {
+			g, ok := got.Lookup(n)
+			if !ok {
+				res.Violate(key("attr-lost"), "lines %q: attribute %s missing at the receiver", lines, n)
+				continue
+			}
+			if !g.Equal(w) && !sameValue(g.Eval(nil), w.Eval(nil)) {
+				res.Violate(key("value-differs"), "lines %q: %s rebuilt as %s, parser reads %s", lines, n, g.String(), w.String())
+			}
+		}
+		if mt, _ := got.EvaluateAttrString("MyType"); mt != "Machine" {
+			res.Violate(key("mytype"), "MyType arrived as %q", mt)
+		}
+	}
+	res.Outcome("raw-senders-ok")
 }
